@@ -206,6 +206,13 @@ def apply_fn_aliases(data, role):
     return m
 
 
+def reference_consts(role):
+    try:
+        return set(json.load(open(os.path.join(os.path.dirname(REF), 'const_names.json'))).get(role, []))
+    except (OSError, ValueError):
+        return None
+
+
 def apply(data, role):
     """rewrite the facts of one crate in place; returns {struct: {actual: reference}}"""
     try:
@@ -268,6 +275,13 @@ if __name__ == '__main__':
         if role:
             fo[role] = fn_inventory(json.load(open(f)))
     json.dump(fo, open(FREF, 'w'), indent=0, sort_keys=True)
+    co = {}
+    for f in sorted(glob.glob(os.path.join(d, '*.json'))):
+        b = os.path.basename(f)
+        role = 'lib' if b.startswith('fst-Rlib') else 'bin' if b.startswith('fst-Executable') else None
+        if role:
+            co[role] = sorted(c['path'] for c in json.load(open(f)).get('consts', []))
+    json.dump(co, open(os.path.join(os.path.dirname(REF), 'const_names.json'), 'w'), indent=0)
     to = {}
     for f in sorted(glob.glob(os.path.join(d, '*.json'))):
         b = os.path.basename(f)
